@@ -919,7 +919,7 @@ func (c *Conn) advanceFrame() (int, error) {
 		}
 
 		if err := c.setReadRemaining(int64(binary.BigEndian.Uint64(p))); err != nil {
-			return noFrame, err
+			return noFrame, c.handleReadLimit()
 		}
 	}
 
@@ -942,13 +942,11 @@ func (c *Conn) advanceFrame() (int, error) {
 		// Don't allow readLength to overflow in the presence of a large readRemaining
 		// counter.
 		if c.readLength < 0 {
-			return noFrame, ErrReadLimit
+			return noFrame, c.handleReadLimit()
 		}
 
 		if c.readLimit > 0 && c.readLength > c.readLimit {
-			// Make a best effort to send a close message describing the problem.
-			_ = c.WriteControl(CloseMessage, FormatCloseMessage(CloseMessageTooBig, ""), time.Now().Add(writeWait))
-			return noFrame, ErrReadLimit
+			return noFrame, c.handleReadLimit()
 		}
 
 		return frameType, nil
@@ -999,6 +997,13 @@ func (c *Conn) advanceFrame() (int, error) {
 	}
 
 	return frameType, nil
+}
+
+// handleReadLimit makes a best effort to send a close message describing the
+// problem and returns ErrReadLimit.
+func (c *Conn) handleReadLimit() error {
+	_ = c.WriteControl(CloseMessage, FormatCloseMessage(CloseMessageTooBig, ""), time.Now().Add(writeWait))
+	return ErrReadLimit
 }
 
 func (c *Conn) handleProtocolError(message string) error {
